@@ -23,8 +23,8 @@ type Obligation struct {
 	NAssume int
 	Src     string
 	Bounded string // name of the bounded instance this obligation belongs to ("" = unbounded)
-	Cover   bool // expects sat (vacuity guard)
-	Block   int  // block the obligation belongs to (-1: none); only assumptions of its CFG ancestors are relevant
+	Cover   bool   // expects sat (vacuity guard)
+	Block   int    // block the obligation belongs to (-1: none); only assumptions of its CFG ancestors are relevant
 	tx      *FnTx
 	Extra   []string // extra declarations-free assertions local to this obligation
 	// results
@@ -65,15 +65,16 @@ type FnTx struct {
 	tagOverride int   // when >= 0: tag for assumptions made outside block execution
 	obls        []*Obligation
 
-	vals     map[ssa.Value]Term
-	locs     map[ssa.Value]*Loc
-	tuples   map[ssa.Value][]Term
-	reach    map[*ssa.BasicBlock]string
-	out      map[*ssa.BasicBlock]*State
-	entry    *State
-	curBlock *ssa.BasicBlock
-	curReach string
-	curIdx   int
+	vals        map[ssa.Value]Term
+	locs        map[ssa.Value]*Loc
+	tuples      map[ssa.Value][]Term
+	reach       map[*ssa.BasicBlock]string
+	out         map[*ssa.BasicBlock]*State
+	entry       *State
+	curBlock    *ssa.BasicBlock
+	curReach    string
+	curIdx      int
+	curCallArgs []Term
 
 	localAlloc  map[*ssa.Alloc]bool
 	privFV      map[*ssa.FreeVar]bool
@@ -443,6 +444,31 @@ func allocIsLocal(a *ssa.Alloc) bool {
 					return false
 				}
 			case *ssa.DebugRef:
+			case *ssa.MakeClosure:
+				// captured by a closure that only reads it: nobody else can write the cell
+				cf, isFn := x.Fn.(*ssa.Function)
+				if !isFn {
+					return false
+				}
+				for bi, b := range x.Bindings {
+					if b != v {
+						continue
+					}
+					if bi >= len(cf.FreeVars) || cf.FreeVars[bi].Referrers() == nil {
+						return false
+					}
+					for _, fr := range *cf.FreeVars[bi].Referrers() {
+						switch y := fr.(type) {
+						case *ssa.UnOp:
+							if y.Op != token.MUL {
+								return false
+							}
+						case *ssa.DebugRef:
+						default:
+							return false
+						}
+					}
+				}
 			default:
 				return false
 			}
